@@ -106,6 +106,25 @@ def anchorless_allowed(stmts, inputs, optimize: bool) -> set:
     ok = set()
     dyn = {i["name"] for i in inputs}
     seen_exprs: dict[str, str] = {}
+    # sub-expressions of every declaration (a named value that CSE merges into a node another
+    # statement consumes is not exported under its own name)
+    subs: dict[str, set] = {}
+
+    def collect(e, acc):
+        if isinstance(e, list) and e and isinstance(e[0], str):
+            if e[0] in ("bin", "neg", "not", "proj", "projt", "sel"):
+                acc.add(lang.pexpr(e))
+            for x in e[1:]:
+                if isinstance(x, list):
+                    collect(x, acc)
+
+    for s0 in stmts:
+        if s0[0] == "decl" and s0[1] in ("Signal", "Bundle"):
+            acc: set = set()
+            for x in s0[3][1:]:
+                if isinstance(x, list):
+                    collect(x, acc)
+            subs[s0[2]] = acc
     for s in stmts:
         if s[0] != "decl" or s[1] not in ("Signal", "Bundle"):
             continue
@@ -118,6 +137,8 @@ def anchorless_allowed(stmts, inputs, optimize: bool) -> set:
         key = lang.pexpr(ex)
         if optimize and key in seen_exprs:
             ok.add(name)          # CSE duplicate of an earlier declaration
+        if optimize and any(key in v for n2, v in subs.items() if n2 != name):
+            ok.add(name)          # CSE duplicate of a sub-expression another statement consumes
         seen_exprs.setdefault(key, name)
     return ok
 
